@@ -309,7 +309,7 @@ class Flow:
             depth -= 1
         return expr
 
-    def canon(self, expr: ast.AST, depth: int = 14, _stack: Optional[set] = None):
+    def canon(self, expr: ast.AST, depth: int = 40, _stack: Optional[set] = None):
         """Hashable normal form with local aliases expanded."""
         if _stack is None:
             _stack = set()
@@ -320,16 +320,21 @@ class Flow:
             ds = self.defs_of(expr)
             if not ds:
                 return ('global', expr.id)
-            forms = []
-            for d in ds:
+            if len(ds) == 1:
+                d = ds[0]
                 if id(d) in _stack:
-                    forms.append(('rec', d.name))
-                    continue
+                    return ('rec', d.name)
                 _stack.add(id(d))
                 try:
-                    forms.append(self._canon_def(d, depth - 1, _stack))
+                    return self._canon_def(d, depth - 1, _stack)
                 finally:
                     _stack.discard(id(d))
+            # several reaching definitions: each alternative is expanded only when it is a
+            # simple leaf form (so rules can match it); otherwise it is named by its
+            # definition site.  Equal reaching definition sets give equal canons.
+            forms = []
+            for d in ds:
+                forms.append(self._def_token(d))
             forms = sorted(set(forms), key=repr)
             return forms[0] if len(forms) == 1 else ('phi',) + tuple(forms)
         if isinstance(expr, ast.Constant):
@@ -383,6 +388,47 @@ class Flow:
             return c(expr.value)
         return ('ast', type(expr).__name__, unparse(expr))
 
+    def _def_token(self, d: Def):
+        cache = self.__dict__.setdefault('_token_cache', {})
+        if id(d) in cache:
+            return cache[id(d)]
+        tok = None
+        if d.kind == 'param':
+            tok = ('param', d.name)
+        elif d.kind in ('assign', 'walrus') and d.value is not None and self._simple(d.value, 4):
+            tok = self.canon(d.value, 8, {id(d)})
+        if tok is None:
+            st = d.stmt
+            tok = ('def', d.name, d.kind, getattr(st, 'lineno', 0), getattr(st, 'col_offset', 0), d.index)
+        cache[id(d)] = tok
+        return tok
+
+    def _simple(self, e: ast.AST, depth: int) -> bool:
+        """Leaf-like expression: constants, parameters, attribute/subscript chains over them."""
+        if depth <= 0:
+            return False
+        if isinstance(e, ast.Constant):
+            return True
+        if isinstance(e, ast.Name):
+            ds = self.defs_of(e)
+            if not ds:
+                return True
+            if len(ds) != 1:
+                return False
+            d = ds[0]
+            if d.kind == 'param':
+                return True
+            if d.kind in ('assign', 'walrus') and d.value is not None:
+                return self._simple(d.value, depth - 1)
+            return False
+        if isinstance(e, ast.Attribute):
+            return self._simple(e.value, depth)
+        if isinstance(e, ast.Subscript):
+            return self._simple(e.value, depth) and self._simple(e.slice, depth - 1)
+        if isinstance(e, ast.UnaryOp):
+            return self._simple(e.operand, depth)
+        return False
+
     def _canon_target(self, t: ast.AST):
         if isinstance(t, ast.Name):
             return ('t', t.id)
@@ -415,6 +461,22 @@ class Flow:
         if d.kind == 'func':
             return ('func', d.name)
         return (d.kind, d.name)
+
+    def alternatives(self, expr: ast.AST) -> list:
+        """Canonical forms of every reaching definition of a Name (expanded), or [canon(expr)]."""
+        if isinstance(expr, ast.Name):
+            ds = self.defs_of(expr)
+            if ds:
+                out = []
+                for d in ds:
+                    if d.kind == 'param':
+                        out.append(('param', d.name))
+                    elif d.kind in ('assign', 'walrus') and d.value is not None:
+                        out.append(self.canon(d.value, 40, {id(d)}))
+                    else:
+                        out.append(self._def_token(d))
+                return out
+        return [self.canon(expr)]
 
     def same(self, a: ast.AST, b: ast.AST) -> bool:
         return self.canon(a) == self.canon(b)
